@@ -103,3 +103,10 @@ package sts
 //@   modifies nothing
 //@ interface Payload.GetStarted pure stable
 //@ interface Payload.GetCompleted pure stable
+
+//@ interface Recovered.Allocate trusted
+//@   modifies nothing
+//@ interface Recovered.IsAllocated trusted
+//@   modifies nothing
+//@ interface Recovered.GetSendSize trusted
+//@   modifies nothing
